@@ -61,6 +61,12 @@ type c11Mixed struct {
 	X map[string]string `json:"x,omitempty"`
 }
 
+// c11Rec: a slice decoder that is re-entered while it is running (its pooled scratch arrays nest).
+type c11Rec struct {
+	V    int      `json:"v"`
+	Kids []c11Rec `json:"kids,omitempty"`
+}
+
 type c11Dst struct {
 	A int    `json:"a"`
 	B string `json:"b"`
@@ -70,6 +76,7 @@ type c11Dst struct {
 // c11Env holds the reusable handles of one history.
 type c11Env struct {
 	q1, q2 *json.FieldQuery
+	q3     *json.FieldQuery // the names of q2 in the same order, but flat
 	path   *json.Path
 	encBuf bytes.Buffer
 	enc    *json.Encoder
@@ -81,6 +88,7 @@ func newC11Env() *c11Env {
 	e := &c11Env{}
 	e.q1, _ = json.BuildFieldQuery("a", "s")
 	e.q2, _ = json.BuildFieldQuery("m", json.BuildSubFieldQuery("p").Fields("a"))
+	e.q3, _ = json.BuildFieldQuery("m", "p", "a")
 	e.path, _ = json.CreatePath("$.a.b")
 	e.enc = json.NewEncoder(&e.encBuf)
 	e.dec = json.NewDecoder(&e.decIn)
@@ -162,6 +170,9 @@ func c11Calls() []c11Call {
 		{"MarshalContext(query 2)", func(e *c11Env) string {
 			return r2(json.MarshalContext(json.SetFieldQueryToContext(context.Background(), e.q2), val))
 		}},
+		{"MarshalContext(query 2 flattened: same names, no nesting)", func(e *c11Env) string {
+			return r2(json.MarshalContext(json.SetFieldQueryToContext(context.Background(), e.q3), val))
+		}},
 		{"MarshalContext(no query)", func(e *c11Env) string { return r2(json.MarshalContext(context.Background(), val)) }},
 		{"Encoder.Encode", func(e *c11Env) string {
 			e.encBuf.Reset()
@@ -176,16 +187,26 @@ func c11Calls() []c11Call {
 		{"Marshal(256 KiB output)", func(e *c11Env) string { return r2(json.Marshal(big)) }},
 		{"Marshal(2 KiB output)", func(e *c11Env) string { return r2(json.Marshal(mid)) }},
 		{"MarshalIndent(2 KiB output)", func(e *c11Env) string { return r2(json.MarshalIndent(mid, "", "  ")) }},
-		{"Unmarshal", func(e *c11Env) string { return dec(`{"a":5,"b":"x","n":"9"}`, func(b []byte, v interface{}) error { return json.Unmarshal(b, v) }) }},
-		{"Unmarshal(syntax error)", func(e *c11Env) string { return dec(`{"a":5,"b":"x",`, func(b []byte, v interface{}) error { return json.Unmarshal(b, v) }) }},
+		{"Unmarshal", func(e *c11Env) string {
+			return dec(`{"a":5,"b":"x","n":"9"}`, func(b []byte, v interface{}) error { return json.Unmarshal(b, v) })
+		}},
+		{"Unmarshal(syntax error)", func(e *c11Env) string {
+			return dec(`{"a":5,"b":"x",`, func(b []byte, v interface{}) error { return json.Unmarshal(b, v) })
+		}},
 		{"Unmarshal(deep syntax error)", func(e *c11Env) string {
 			var v interface{}
 			err := json.Unmarshal([]byte(`{"a":[{"b":[1,2,{"c":tru}]}]}`), &v)
 			return fmt.Sprintf("%v %v", v, err != nil)
 		}},
-		{"Unmarshal(type error)", func(e *c11Env) string { return dec(`{"a":"str","b":"x"}`, func(b []byte, v interface{}) error { return json.Unmarshal(b, v) }) }},
-		{"Unmarshal(,string error)", func(e *c11Env) string { return dec(`{"a":1,"n":"zz"}`, func(b []byte, v interface{}) error { return json.Unmarshal(b, v) }) }},
-		{"Unmarshal(duplicate keys)", func(e *c11Env) string { return dec(dup, func(b []byte, v interface{}) error { return json.Unmarshal(b, v) }) }},
+		{"Unmarshal(type error)", func(e *c11Env) string {
+			return dec(`{"a":"str","b":"x"}`, func(b []byte, v interface{}) error { return json.Unmarshal(b, v) })
+		}},
+		{"Unmarshal(,string error)", func(e *c11Env) string {
+			return dec(`{"a":1,"n":"zz"}`, func(b []byte, v interface{}) error { return json.Unmarshal(b, v) })
+		}},
+		{"Unmarshal(duplicate keys)", func(e *c11Env) string {
+			return dec(dup, func(b []byte, v interface{}) error { return json.Unmarshal(b, v) })
+		}},
 		{"UnmarshalWithOption(first-win, duplicate keys)", func(e *c11Env) string {
 			return dec(dup, func(b []byte, v interface{}) error {
 				return json.UnmarshalWithOption(b, v, json.DecodeFieldPriorityFirstWin())
@@ -194,7 +215,9 @@ func c11Calls() []c11Call {
 		{"UnmarshalContext(duplicate keys)", func(e *c11Env) string {
 			return dec(dup, func(b []byte, v interface{}) error { return json.UnmarshalContext(context.Background(), b, v) })
 		}},
-		{"UnmarshalNoEscape(duplicate keys)", func(e *c11Env) string { return dec(dup, func(b []byte, v interface{}) error { return json.UnmarshalNoEscape(b, v) }) }},
+		{"UnmarshalNoEscape(duplicate keys)", func(e *c11Env) string {
+			return dec(dup, func(b []byte, v interface{}) error { return json.UnmarshalNoEscape(b, v) })
+		}},
 		{"Unmarshal(2 KiB string)", func(e *c11Env) string {
 			var s string
 			err := json.Unmarshal([]byte(`"`+strings.Repeat("ab\\n", 512)+`"`), &s)
@@ -206,6 +229,21 @@ func c11Calls() []c11Call {
 			e1 := e.dec.Decode(&v1)
 			e2 := e.dec.Decode(&v2)
 			return fmt.Sprintf("%+v %v %+v %v", v1, e1 != nil, v2, e2 != nil)
+		}},
+		{"Decoder.Decode(array of a recursive type, input ends after an element of the inner array)", func(e *c11Env) string {
+			var v []c11Rec
+			err := json.NewDecoder(strings.NewReader(`[{"v":1,"kids":[{"v":7}`)).Decode(&v)
+			return fmt.Sprintf("%+v %v", v, err != nil)
+		}},
+		{"Unmarshal(array of a recursive type, nested)", func(e *c11Env) string {
+			var v []c11Rec
+			err := json.Unmarshal([]byte(`[{"v":1,"kids":[{"v":2},{"v":3,"kids":[{"v":5}]}]},{"v":4}]`), &v)
+			return fmt.Sprintf("%+v %v", v, err)
+		}},
+		{"Decoder.Decode(array of a recursive type, nested)", func(e *c11Env) string {
+			var v []c11Rec
+			err := json.NewDecoder(strings.NewReader(`[{"v":1,"kids":[{"v":2},{"v":3,"kids":[{"v":5}]}]},{"v":4}]`)).Decode(&v)
+			return fmt.Sprintf("%+v %v", v, err)
 		}},
 		{"Decoder.DecodeContext then Decode", func(e *c11Env) string {
 			e.decIn.WriteString(dup + " " + dup + " ")
@@ -247,7 +285,9 @@ func c11Calls() []c11Call {
 			e2 := json.Indent(&b2, []byte(`{"a" 1}`), "p", "i")
 			return fmt.Sprintf("%s %v %s %v", b1.String(), e1 != nil, b2.String(), e2 != nil)
 		}},
-		{"Valid", func(e *c11Env) string { return fmt.Sprint(json.Valid([]byte(`{"a":[1,2,{"b":null}]}`)), json.Valid([]byte(`{"a":`))) }},
+		{"Valid", func(e *c11Env) string {
+			return fmt.Sprint(json.Valid([]byte(`{"a":[1,2,{"b":null}]}`)), json.Valid([]byte(`{"a":`)))
+		}},
 	}
 }
 
